@@ -19,6 +19,11 @@ pub struct SimClock {
     pub stall_permille: u32,
     pub stalls_fired: usize,
     pub first_ns: i64,
+    /// (read index, ns): from that read on the wall clock is that much behind
+    pub wall_back: Vec<(usize, i64)>,
+    pub wall_offset_ns: i64,
+    pub wall_reads: usize,
+    pub backsteps_fired: usize,
 }
 
 #[derive(Clone, Debug, Default)]
@@ -32,7 +37,7 @@ struct SimCtx {
 thread_local! {
     static SIM: RefCell<SimCtx> = const { RefCell::new(SimCtx {
         active: false, key: [0; 16], getrandom_calls: 0,
-        clock: SimClock { state: 0, max_step_ns: 0, now_ns: 0, reads: 0, stalls: Vec::new(), stall_permille: 0, stalls_fired: 0, first_ns: 0 },
+        clock: SimClock { state: 0, max_step_ns: 0, now_ns: 0, reads: 0, stalls: Vec::new(), stall_permille: 0, stalls_fired: 0, first_ns: 0, wall_back: Vec::new(), wall_offset_ns: 0, wall_reads: 0, backsteps_fired: 0 },
     }) };
 }
 
@@ -73,7 +78,8 @@ pub unsafe extern "C" fn clock_gettime(clk: libc::clockid_t, ts: *mut libc::time
     let handled = SIM
         .try_with(|s| {
             let Ok(mut s) = s.try_borrow_mut() else { return false };
-            if !s.active || clk != libc::CLOCK_MONOTONIC {
+            // both clocks live on one simulated time line; the wall clock may also step back
+            if !s.active || (clk != libc::CLOCK_MONOTONIC && clk != libc::CLOCK_REALTIME) {
                 return false;
             }
             let c = &mut s.clock;
@@ -97,8 +103,20 @@ pub unsafe extern "C" fn clock_gettime(clk: libc::clockid_t, ts: *mut libc::time
             if idx == 0 {
                 c.first_ns = c.now_ns;
             }
-            (*ts).tv_sec = c.now_ns / 1_000_000_000;
-            (*ts).tv_nsec = c.now_ns % 1_000_000_000;
+            for k in 0..c.wall_back.len() {
+                if c.wall_back[k].0 == idx {
+                    c.wall_offset_ns -= c.wall_back[k].1;
+                    c.backsteps_fired += 1;
+                }
+            }
+            let t = if clk == libc::CLOCK_REALTIME {
+                c.wall_reads += 1;
+                1_700_000_000_000_000_000 + c.now_ns + c.wall_offset_ns
+            } else {
+                c.now_ns
+            };
+            (*ts).tv_sec = t / 1_000_000_000;
+            (*ts).tv_nsec = t % 1_000_000_000;
             true
         })
         .unwrap_or(false);
@@ -116,11 +134,12 @@ pub struct SimPlan {
     pub max_step_ns: i64,
     pub stalls: Vec<(usize, i64)>,
     pub stall_permille: u32,
+    pub wall_back: Vec<(usize, i64)>,
 }
 
 impl SimPlan {
     pub fn quiet(key: [u8; 16], clock_seed: u64) -> SimPlan {
-        SimPlan { key, clock_seed, max_step_ns: 50_000, stalls: vec![], stall_permille: 0 }
+        SimPlan { key, clock_seed, max_step_ns: 50_000, stalls: vec![], stall_permille: 0, wall_back: vec![] }
     }
 }
 
@@ -128,6 +147,8 @@ impl SimPlan {
 pub struct SimStats {
     pub clock_reads: usize,
     pub stalls_fired: usize,
+    pub backsteps_fired: usize,
+    pub wall_reads: usize,
     pub sim_ns: i64,
     pub getrandom_calls: usize,
 }
@@ -186,6 +207,10 @@ pub fn run_in_sim<T: Send + 'static, F: FnOnce() -> T + Send + 'static>(plan: &S
                     stall_permille: plan.stall_permille,
                     stalls_fired: 0,
                     first_ns: 0,
+                    wall_back: plan.wall_back.clone(),
+                    wall_offset_ns: 0,
+                    wall_reads: 0,
+                    backsteps_fired: 0,
                 };
             });
             let r = std::panic::catch_unwind(std::panic::AssertUnwindSafe(f));
@@ -195,6 +220,8 @@ pub fn run_in_sim<T: Send + 'static, F: FnOnce() -> T + Send + 'static>(plan: &S
                 SimStats {
                     clock_reads: s.clock.reads,
                     stalls_fired: s.clock.stalls_fired,
+                    backsteps_fired: s.clock.backsteps_fired,
+                    wall_reads: s.clock.wall_reads,
                     sim_ns: if s.clock.reads > 0 { s.clock.now_ns - s.clock.first_ns } else { 0 },
                     getrandom_calls: s.getrandom_calls,
                 }
